@@ -113,15 +113,7 @@ func runC14(c *Ctx) {
 				if !ok {
 					return false
 				}
-				hit := false
-				ast.Inspect(d.Call, func(m ast.Node) bool {
-					if call, ok := m.(*ast.CallExpr); ok {
-						if id, ok := call.Fun.(*ast.Ident); ok && info.ObjectOf(id) == restoreObj {
-							hit = true
-						}
-					}
-					return true
-				})
+				hit := invokesFuncValue(c, info, d.Call, restoreObj, 2)
 				// defer helper(…, restore, …): a module-local function that calls that parameter
 				if !hit {
 					if hf := calleeOf(info, d.Call); hf != nil && hf.Pkg() != nil && strings.HasPrefix(hf.Pkg().Path(), modRoot) {
